@@ -32,6 +32,8 @@ type variant struct {
 	App    string // "noapp" | "payment"
 	Parent bool   // created as a sub-channel (ChannelCreated with a parent id)
 	VerCap uint64
+	// LevelDB: the crash points of every writing transition are also run on LevelDB on disk.
+	LevelDB bool
 }
 
 func (v variant) app() channel.App {
@@ -456,23 +458,31 @@ func verdicts(o *op, k int, r stepResult, obs map[string][]snap, org map[string]
 func c10Variants(thorough bool) []variant {
 	if !thorough {
 		return []variant{
-			{"2p-noapp-idx0", 2, 0, "noapp", false, 1},
-			{"2p-noapp-idx0-sub", 2, 0, "noapp", true, 1},
+			{"2p-noapp-idx0", 2, 0, "noapp", false, 1, false},
+			{"2p-noapp-idx0-sub", 2, 0, "noapp", true, 1, false},
 		}
 	}
+	// LevelDB costs ~30 ms per crash point (two opens of a database on disk): it gets the
+	// whole space of the quick tier; the larger spaces run on memorydb.
 	return []variant{
-		{"2p-noapp-idx0", 2, 0, "noapp", false, 2},
-		{"2p-noapp-idx0-sub", 2, 0, "noapp", true, 2},
-		{"2p-noapp-idx1", 2, 1, "noapp", false, 2},
-		{"2p-payment-idx0", 2, 0, "payment", false, 2},
-		{"3p-noapp-idx1-sub", 3, 1, "noapp", true, 1},
+		{"2p-noapp-idx0+leveldb", 2, 0, "noapp", false, 1, true},
+		{"2p-noapp-idx0-sub+leveldb", 2, 0, "noapp", true, 1, true},
+		{"2p-noapp-idx0", 2, 0, "noapp", false, 2, false},
+		{"2p-noapp-idx0-sub", 2, 0, "noapp", true, 2, false},
+		{"2p-noapp-idx1", 2, 1, "noapp", false, 2, false},
+		{"2p-payment-idx0", 2, 0, "payment", false, 2, false},
+		{"3p-noapp-idx1-sub", 3, 1, "noapp", true, 1, false},
 	}
 }
 
 // c10Search: BFS to a fixpoint. Every shard runs the (cheap) search itself; the crash points
 // of transition number t belong to shard t mod n.
-func c10Search(t *testing.T, res *report.Result, v variant, backends []string, deadline time.Time) bool {
+func c10Search(t *testing.T, res *report.Result, v variant, deadline time.Time) bool {
 	all := ops(v)
+	backends := []string{"memorydb"}
+	if v.LevelDB {
+		backends = append(backends, "leveldb")
+	}
 	shard, nshards := report.Shard()
 	w0, _ := build(v, "memorydb", all, nil, false, nil)
 	seen := map[string]bool{w0.canon(): true}
@@ -605,14 +615,10 @@ func c10Search(t *testing.T, res *report.Result, v variant, backends []string, d
 }
 
 func c10Run(t *testing.T, res *report.Result) {
-	backends := []string{"memorydb"}
-	if res.Thorough() {
-		backends = append(backends, "leveldb")
-	}
 	deadline := report.Deadline()
 	exhaustive := true
 	for _, v := range c10Variants(res.Thorough()) {
-		if !c10Search(t, res, v, backends, deadline) {
+		if !c10Search(t, res, v, deadline) {
 			exhaustive = false
 			break
 		}
